@@ -2,9 +2,9 @@ package main
 
 // Stream `recovery` (property C15). Two kinds of cases (one item per case):
 //
-//	recovery \t P \t <value> \t <progress N|H|B|F|S|R> \t <scope route|mw|noroute|routets|routehost|nomethod|options|redirect> \t <namehex=valuehex,…|->
+//	recovery \t P \t <value> \t <progress N|H|B|F|S|R|I|C> \t <scope route|mw|noroute|routets|routehost|nomethod|options|redirect> \t <namehex=valuehex,…|->
 //	    a handler (route handler / inner middleware / no-route handler) behind the Recovery middleware sends nothing /
-//	    a 202 header / header + partial body / a flush only (F) / WriteString (S) / ReadFrom (R) and panics with <value>; the request carries the given headers (set
+//	    a 202 header / header + partial body / a flush only (F) / WriteString (S) / ReadFrom (R) / a 103 informational header only (I) / a Content-Length header without body (C) and panics with <value>; the request carries the given headers (set
 //	    directly in the map, so non-canonical names survive).
 //	    value: error wabort abort str nil custom opsys:<hex> opplain:<hex> wrapop:<hex>
 //	recovery \t T \t <updates|view|handle|update> \t <value> \t <n ops> \t <p<k> | e<k> | g<k> | ok>
@@ -210,6 +210,14 @@ func runRecovery(fields []string) string {
 			_, _ = c.Writer().WriteString("partial")
 		case "R":
 			_, _ = c.Writer().ReadFrom(strings.NewReader("partial"))
+		case "I":
+			// an informational header only (103 Early Hints): nothing final has been sent, the 500 is still due
+			c.Writer().Header().Set("Link", "</style.css>; rel=preload")
+			c.Writer().WriteHeader(http.StatusEarlyHints)
+		case "C":
+			// headers prepared for a body that is never written
+			c.Writer().Header().Set("Content-Length", "5")
+			c.Writer().Header().Set("Content-Type", "application/octet-stream")
 		}
 		eventsAtPanic = len(rw.events)
 		panic(val)
@@ -367,6 +375,12 @@ func runRecovery(fields []string) string {
 	res := "I=" + i + "\tJ=" + j
 	if leak != "" {
 		res += "\tO=" + leak
+	}
+	// the fresh 500 must be a readable response: a Content-Length announced with it is the length of the body sent with it
+	if status == 500 && touched == "1" {
+		if cl := rw.h.Get("Content-Length"); cl != "" && cl != itoa(len(rw.body)) && leak == "" {
+			res += fmt.Sprintf("\tO=the 500 response announces Content-Length %s and carries %d body bytes", cl, len(rw.body))
+		}
 	}
 	return res
 }
@@ -601,7 +615,7 @@ func genRecovery(r *Rng, tier string, n int, emit func(string)) {
 	// every value x progress x scope once, with random headers
 	k := 0
 	for _, v := range recValues {
-		for _, p := range []string{"N", "H", "B", "F", "S", "R"} {
+		for _, p := range []string{"N", "H", "B", "F", "S", "R", "I", "C"} {
 			for _, s := range []string{"route", "mw", "noroute", "routets", "routehost", "nomethod", "options", "redirect"} {
 				if emitted >= n*2/3 {
 					break
@@ -641,7 +655,7 @@ func genRecovery(r *Rng, tier string, n int, emit func(string)) {
 	}
 	for emitted < n {
 		k++
-		emit("recovery\tP\t" + Pick(r, recValues) + "\t" + Pick(r, []string{"N", "H", "B", "F", "S", "R"}) + "\t" +
+		emit("recovery\tP\t" + Pick(r, recValues) + "\t" + Pick(r, []string{"N", "H", "B", "F", "S", "R", "I", "C"}) + "\t" +
 			Pick(r, []string{"route", "mw", "noroute", "routets", "routehost", "nomethod", "options", "redirect"}) + "\t" + recHeaders(r, k))
 		emitted++
 	}
